@@ -163,7 +163,7 @@ def run_cli_compare(files, opts, csv1, csv2):
             w = _csv.writer(fp)
             if tokn != "-":
                 for r in tokn.split("/"):
-                    w.writerow([] if r == "!" else [c.replace("~", " ") for c in r.split(";")])
+                    w.writerow([] if r == "!" else [c.replace("~", " ").replace("^", "\t") for c in r.split(";")])
         paths.append(fn)
     ws = opts.split(",")
     num = lambda pre, dflt: next((int(x[len(pre):]) for x in ws if x.startswith(pre) and x[len(pre):].isdigit()), dflt)
@@ -202,7 +202,7 @@ def run_lca_index(tmpdir, n, opts, sigs, csvtok):
         w = _csv.writer(fp)
         if csvtok != "-":
             for r in csvtok.split("/"):
-                w.writerow([] if r == "!" else [c.replace("~", " ") for c in r.split(";")])
+                w.writerow([] if r == "!" else [c.replace("~", " ").replace("^", "\t") for c in r.split(";")])
     ws = opts.split(",")
     num = lambda pre, dflt: next((int(x[len(pre):]) for x in ws if x.startswith(pre) and x[len(pre):].isdigit()), dflt)
     mol = num("m", 0)
@@ -232,11 +232,11 @@ def run_lca_index(tmpdir, n, opts, sigs, csvtok):
 
 
 def name_of(tok):
-    return "" if tok == "-" else tok.replace("~", " ")
+    return "" if tok == "-" else tok.replace("~", " ").replace("^", "\t")
 
 
 def tok_of(s):
-    return "-" if s == "" else s.replace(" ", "~")
+    return "-" if s == "" else s.replace(" ", "~").replace("\t", "^")
 
 
 def nat_list(tok):
